@@ -97,3 +97,49 @@ Proof.
   destruct (pred_done P c p); try discriminate.
   cbn in H. destruct (aq_ph c a); try congruence; inv_some; cbn; unfold upd; rewrite !Nat.eqb_refl; auto.
 Qed.
+
+(* ------------------------------------------------------------------ liveness of the drain *)
+
+Definition waiting_caller (s : ppc_t) : Prop := s = PWaitDrain \/ s = PWaitReady.
+
+(* a caller blocked on a full queue (select on aq.draining) can move as soon as the drain has
+   STARTED (close(aq.draining) is the first thing fulfill / reject do, before any queued call is
+   delivered or rejected); a caller blocked on ready can move as soon as ready is closed *)
+Lemma blocked_caller_enabled_lemma : forall P c p, reachable P c ->
+  (ppc c p = PWaitDrain -> aq_ph c (proot c p) <> AQueueing -> step P c (TPipe p) <> None) /\
+  (ppc c p = PWaitReady -> ready_closed c (proot c p) = true -> step P c (TPipe p) <> None).
+Proof.
+  intros P c p R. pose proof (invA_reachable _ _ R) as A.
+  assert (K : ppc c p <> PInit -> exists on, p_kind P p = Pipe on).
+  { intros H. destruct (p_kind P p) eqn:E; eauto. exfalso. apply H. apply (a_kp _ _ A); auto. }
+  split; intros Hp Hph.
+  - destruct K as (on & K); [congruence|]. simpl. unfold step_pipe. rewrite K, Hp.
+    destruct (aq_ph c (proot c p)); try congruence; discriminate.
+  - destruct K as (on & K); [congruence|]. simpl. unfold step_pipe. rewrite K, Hp, Hph. discriminate.
+Qed.
+
+(* reject: from the moment the goroutine of a is inside aq.reject (and ever after) every caller
+   blocked on a's answerQueue can move - the queued calls are rejected only after the blocked
+   callers have been released *)
+Lemma reject_releases_callers_lemma : forall P c a p, reachable P c ->
+  ierr c a = true -> iclass (ipc c a) <> 0 -> proot c p = a -> waiting_caller (ppc c p) ->
+  step P c (TPipe p) <> None.
+Proof.
+  intros P c a p R He Hi Hr Hw. pose proof (invA_reachable _ _ R) as A.
+  pose proof (a_q5 _ _ A a) as Q.
+  destruct (blocked_caller_enabled_lemma P c p R) as (H1 & H2). rewrite Hr in *.
+  destruct Hw as [Hw|Hw].
+  - apply H1; auto. intros E. rewrite E in Q. simpl in Q. congruence.
+  - apply H2; auto. unfold ready_closed. destruct (aq_ph c a); simpl in Q; auto; congruence.
+Qed.
+
+(* fulfill and reject: once the drain of a has ended no caller stays blocked on a's answerQueue *)
+Lemma drained_releases_callers_lemma : forall P c a p, reachable P c ->
+  aq_ph c a = ADrained -> proot c p = a -> waiting_caller (ppc c p) -> step P c (TPipe p) <> None.
+Proof.
+  intros P c a p R Hd Hr Hw.
+  destruct (blocked_caller_enabled_lemma P c p R) as (H1 & H2). rewrite Hr in *.
+  destruct Hw as [Hw|Hw].
+  - apply H1; auto. congruence.
+  - apply H2; auto. unfold ready_closed. rewrite Hd. reflexivity.
+Qed.
